@@ -59,29 +59,31 @@ def terminating_unwind_edges(facts):
 
 
 def field_mentions(facts, adt, fidx, skip_aggregates=True):
-    """Bodies that mention field #fidx of `adt` in any place expression."""
+    """Bodies in which field #fidx of `adt` is written, moved out, mutably borrowed or dropped (shared borrows and
+    copies cannot move, replace or drop the value and are not counted)."""
     out = []
     for b in facts.fn_bodies():
         for blk in b["blocks"]:
             places = []
             for st in blk["stmts"]:
                 if st["k"] == "assign":
-                    places.append(st["place"])
+                    places.append(st["place"])                     # write
                     rv = st["rv"]
-                    if "place" in rv:
-                        places.append(rv["place"])
+                    if rv["k"] in ("ref", "rawptr") and rv.get("mut"):
+                        places.append(rv["place"])                 # &mut / &raw mut
                     for key in ("op", "a", "b"):
-                        if key in rv and isinstance(rv[key], dict) and "place" in rv[key]:
-                            places.append(rv[key]["place"])
+                        o = rv.get(key)
+                        if isinstance(o, dict) and o.get("k") == "move":
+                            places.append(o["place"])
                     for o in rv.get("ops", []):
-                        if "place" in o:
+                        if o.get("k") == "move":
                             places.append(o["place"])
             t = blk["term"]
             if t["k"] == "drop":
                 places.append(t["place"])
             if t["k"] == "call":
                 for o in t["args"]:
-                    if "place" in o:
+                    if o.get("k") == "move":
                         places.append(o["place"])
             for pl in places:
                 ty = b["locals"][pl["l"]]["ty"]
